@@ -1806,3 +1806,219 @@ Proof.
   - intros kv Hkv. rewrite forallb_forall in H3. specialize (H3 kv Hkv). lia.
   - apply nodup_b_sound, H4.
 Qed.
+
+(* ================================================================== *)
+(* Part 5: termination of SliceFinder.trial                              *)
+Lemma remove_seq_inv : forall xs c c', Inv c -> remove_seq xs c = Some c' ->
+  Inv c' /\ NoDup xs /\ (forall y, In y xs -> zd_get y (c_sd c) <> None) /\
+  (forall j, zd_get j (c_sd c') = if memb j xs then None else zd_get j (c_sd c)) /\
+  (length (c_sd c') + length xs = length (c_sd c))%nat.
+Proof.
+  induction xs as [|x xs IH]; intros c c' Hinv Hseq; cbn [remove_seq] in Hseq.
+  - injection Hseq as <-. split; [exact Hinv|]. split; [constructor|]. split; [intros y []|].
+    split; [intros j; reflexivity|cbn; lia].
+  - destruct (remove x c) as [c1|] eqn:Er; [|discriminate].
+    destruct (remove_spec x c c1 Hinv Er) as (Ed & _ & S1 & _ & _ & I1). cbn zeta in Ed.
+    destruct (IH c1 c' I1 Hseq) as (I' & ND & Hkeys & R & Len).
+    assert (HND : NoDup (zd_keys (c_sd c))) by apply Hinv.
+    assert (Hx : ~ In x xs).
+    { intros Hin. apply (Hkeys x Hin). rewrite S1. apply zd_get_del_same, HND. }
+    split; [exact I'|]. split; [constructor; assumption|]. split; [|split].
+    + intros y [<-|Hy]; [congruence|]. specialize (Hkeys y Hy). rewrite S1 in Hkeys.
+      destruct (Nat.eq_dec y x) as [->|Hne]; [contradiction|]. rewrite zd_get_del_other in Hkeys by exact Hne. exact Hkeys.
+    + intros j. rewrite R, S1, memb_cons. destruct (Nat.eqb_spec j x) as [->|Hne]; cbn [orb].
+      * destruct (memb x xs); [reflexivity|]. apply zd_get_del_same, HND.
+      * rewrite zd_get_del_other by exact Hne. reflexivity.
+    + pose proof (remove_sd_length x c c1 Er). cbn [length]. lia.
+Qed.
+
+Lemma zd_mem_get j d : zd_mem j d = true <-> zd_get j d <> None.
+Proof. unfold zd_mem. destruct (zd_get j d); split; congruence. Qed.
+
+(* a slicing with one more index has a strictly smaller size_dict *)
+Lemma entry_measure fd key cost x nc : Inv (f_cost0 fd) ->
+  entry_ok fd (key, cost) -> entry_ok fd (key_ins x key, nc) -> zd_mem x (c_sd cost) = true ->
+  (length (c_sd nc) < length (c_sd cost))%nat.
+Proof.
+  intros Hinv (xs & Hs & Hk & _) (xs' & Hs' & Hk' & _) Hx. cbn [fst snd] in *.
+  destruct (remove_seq_inv xs _ cost Hinv Hs) as (_ & ND & _ & R & Len).
+  destruct (remove_seq_inv xs' _ nc Hinv Hs') as (_ & ND' & _ & _ & Len').
+  assert (Hnx : ~ In x xs).
+  { apply memb_false. apply zd_mem_get in Hx. specialize (R x). destruct (memb x xs); [congruence|reflexivity]. }
+  assert (HP : Permutation xs' (x :: xs)).
+  { apply NoDup_Permutation; [exact ND'|constructor; assumption|].
+    intros j. rewrite <- Hk', key_ins_in, Hk. cbn. intuition. }
+  apply Permutation_length in HP. cbn [length] in HP. lia.
+Qed.
+
+Lemma trial_loop_unfold fd x rest ch key cost :
+  trial_loop fd (x :: rest) ch key cost =
+  match c_sd cost with
+  | [] => Raise E_MAX_EMPTY
+  | _ => match trial_step fd x ch key cost with
+         | SRet r => Ret r
+         | SRaise k => Raise k
+         | SCont ch' k' c' => trial_loop fd rest ch' k' c'
+         end
+  end.
+Proof.
+  cbn [trial_loop]. unfold trial_step. destruct (c_sd cost) as [|kv sd]; [reflexivity|].
+  destruct (negb (zd_mem x (kv :: sd))); [reflexivity|].
+  destruct (memb x (f_forbidden fd)); [reflexivity|]. cbn zeta.
+  destruct (cache_get (key_ins x key) ch) as [nc|].
+  - destruct (opt_test (f_tover fd) (over_gt nc)); [reflexivity|].
+    destruct (opt_test (f_tslices fd) (slices_ge nc)); [reflexivity|].
+    destruct (opt_test (f_tsize fd) (size_le nc)); reflexivity.
+  - destruct (remove x cost) as [nc|]; [|reflexivity].
+    destruct (opt_test (f_tover fd) (over_gt nc)); [reflexivity|].
+    destruct (opt_test (f_tslices fd) (slices_ge nc)); [reflexivity|].
+    destruct (opt_test (f_tsize fd) (size_le nc)); reflexivity.
+Qed.
+
+(* the list-oracle loop is the choice-function loop for the positional choice function *)
+Lemma trial_loop_is_g fd choose : forall l step ch key cost,
+  (forall i k c, (i < length l)%nat -> choose (step + i)%nat k c = nth i l 0%nat) ->
+  trial_loop fd l ch key cost = trial_loop_g fd choose (length l) step ch key cost.
+Proof.
+  induction l as [|x l IH]; intros step ch key cost Hc.
+  - cbn. destruct (c_sd cost); reflexivity.
+  - rewrite trial_loop_unfold. cbn [length trial_loop_g].
+    destruct (c_sd cost) as [|kv sd]; [reflexivity|].
+    assert (E0 : choose step key cost = x).
+    { pose proof (Hc 0%nat key cost) as H0. rewrite Nat.add_0_r in H0. apply H0. cbn; lia. }
+    rewrite E0.
+    destruct (trial_step fd x ch key cost) as [r|k|ch' k' c']; try reflexivity.
+    apply IH. intros i k c Hi. replace (S step + i)%nat with (step + S i)%nat by lia.
+    rewrite Hc by (cbn; lia). reflexivity.
+Qed.
+
+Lemma trial_is_g fd l ch :
+  trial fd l ch = trial_g fd (fun i _ _ => nth i l 0%nat) (length l) ch.
+Proof.
+  unfold trial, trial_g. destruct (cache_get [] ch) as [cost|]; [|reflexivity].
+  destruct (already_satisfied fd cost); [reflexivity|].
+  apply trial_loop_is_g. intros i k c _. reflexivity.
+Qed.
+
+Lemma trial_step_cont fd x ch key cost ch' k' c' : Inv (f_cost0 fd) ->
+  cache_ok fd ch -> entry_ok fd (key, cost) ->
+  trial_step fd x ch key cost = SCont ch' k' c' ->
+  cache_ok fd ch' /\ entry_ok fd (k', c') /\ (length (c_sd c') < length (c_sd cost))%nat.
+Proof.
+  intros Hinv Hch Hent. unfold trial_step.
+  destruct (zd_mem x (c_sd cost)) eqn:Em; cbn [negb]; [|discriminate].
+  destruct (memb x (f_forbidden fd)) eqn:Eforb; [discriminate|]. apply memb_false in Eforb. cbn zeta.
+  assert (Hstep : forall nc, (cache_get (key_ins x key) ch = Some nc \/ remove x cost = Some nc) ->
+                             entry_ok fd (key_ins x key, nc)).
+  { intros nc [Hc|Hr].
+    - apply cache_get_in in Hc. unfold cache_ok in Hch. rewrite Forall_forall in Hch. apply Hch, Hc.
+    - destruct Hent as (xs & Hs & Hk & Hf). cbn [fst snd] in *. exists (xs ++ [x]). cbn [fst snd]. split; [|split].
+      + apply (remove_seq_snoc xs x _ cost nc Hs Hr).
+      + intros j. rewrite key_ins_in, in_app_iff, Hk. cbn. intuition.
+      + intros j Hj. apply in_app_iff in Hj. destruct Hj as [Hj|[<-|[]]]; [apply Hf, Hj|exact Eforb]. }
+  destruct (cache_get (key_ins x key) ch) as [nc|] eqn:Ec.
+  - destruct (opt_test (f_tover fd) (over_gt nc)); [discriminate|].
+    destruct (opt_test (f_tslices fd) (slices_ge nc)); [discriminate|].
+    destruct (opt_test (f_tsize fd) (size_le nc)); [discriminate|].
+    intros [= <- <- <-]. assert (Hnc := Hstep nc (or_introl eq_refl)).
+    split; [exact Hch|]. split; [exact Hnc|]. apply (entry_measure fd key cost x nc Hinv Hent Hnc Em).
+  - destruct (remove x cost) as [nc|] eqn:Er; [|discriminate].
+    destruct (opt_test (f_tover fd) (over_gt nc)); [discriminate|].
+    destruct (opt_test (f_tslices fd) (slices_ge nc)); [discriminate|].
+    destruct (opt_test (f_tsize fd) (size_le nc)); [discriminate|].
+    intros [= <- <- <-]. assert (Hnc := Hstep nc (or_intror eq_refl)).
+    split; [|split; [exact Hnc|apply (entry_measure fd key cost x nc Hinv Hent Hnc Em)]].
+    unfold cache_ok. apply Forall_app. split; [exact Hch|]. constructor; [exact Hnc|constructor].
+Qed.
+
+Lemma trial_step_raise_oracle fd x ch key cost :
+  trial_step fd x ch key cost = SRaise E_ORACLE -> zd_mem x (c_sd cost) = false.
+Proof.
+  unfold trial_step. destruct (zd_mem x (c_sd cost)); cbn [negb]; [|reflexivity].
+  destruct (memb x (f_forbidden fd)); [discriminate|]. cbn zeta.
+  destruct (cache_get (key_ins x key) ch) as [nc|]; [|destruct (remove x cost) as [nc|]; [|discriminate]];
+    destruct (opt_test (f_tover fd) (over_gt nc)); try discriminate;
+    destruct (opt_test (f_tslices fd) (slices_ge nc)); try discriminate;
+    destruct (opt_test (f_tsize fd) (size_le nc)); discriminate.
+Qed.
+
+(* what `max(cost.size_dict, key=...)` guarantees: the pick is a key of the dict *)
+Definition picks_candidates (choose : nat -> list ix -> costs -> ix) : Prop :=
+  forall i k c, c_sd c <> [] -> zd_mem (choose i k c) (c_sd c) = true.
+
+Theorem trial_loop_g_terminates fd choose : Inv (f_cost0 fd) ->
+  forall fuel step ch key cost, cache_ok fd ch -> entry_ok fd (key, cost) ->
+  (length (c_sd cost) <= fuel)%nat ->
+  trial_loop_g fd choose fuel step ch key cost <> Stuck /\
+  (picks_candidates choose -> trial_loop_g fd choose fuel step ch key cost <> Raise E_ORACLE).
+Proof.
+  intros Hinv. induction fuel as [|fuel IH]; intros step ch key cost Hch Hent Hlen; cbn [trial_loop_g].
+  - destruct (c_sd cost); [split; [|intros _]; discriminate|cbn in Hlen; lia].
+  - destruct (c_sd cost) as [|kv sd] eqn:Esd; [split; [|intros _]; discriminate|]. rewrite <- Esd in *.
+    destruct (trial_step fd (choose step key cost) ch key cost) as [r|k|ch' k' c'] eqn:Et.
+    + split; [|intros _]; discriminate.
+    + split; [discriminate|]. intros Hgood Hk. injection Hk as ->.
+      apply trial_step_raise_oracle in Et. rewrite Hgood in Et; [discriminate|]. rewrite Esd. discriminate.
+    + destruct (trial_step_cont fd _ ch key cost ch' k' c' Hinv Hch Hent Et) as (A & B & C).
+      apply IH; [exact A|exact B|lia].
+Qed.
+
+Lemma entry_sd_length fd k c : Inv (f_cost0 fd) -> entry_ok fd (k, c) ->
+  (length (c_sd c) <= length (c_sd (f_cost0 fd)))%nat.
+Proof.
+  intros Hinv (xs & Hs & _). cbn [snd] in Hs.
+  destruct (remove_seq_inv xs _ c Hinv Hs) as (_ & _ & _ & _ & Len). lia.
+Qed.
+
+(* SliceFinder.trial returns or raises within |size_dict| iterations of the loop body
+   (the next evaluation of max() would find an empty dict and raise ValueError) *)
+Theorem trial_g_terminates fd choose fuel ch : Inv (f_cost0 fd) -> cache_ok fd ch ->
+  (length (c_sd (f_cost0 fd)) <= fuel)%nat ->
+  trial_g fd choose fuel ch <> Stuck /\
+  (picks_candidates choose -> trial_g fd choose fuel ch <> Raise E_ORACLE).
+Proof.
+  intros Hinv Hch Hfuel. unfold trial_g.
+  destruct (cache_get [] ch) as [cost|] eqn:Ec; [|split; [|intros _]; discriminate].
+  destruct (already_satisfied fd cost); [split; [|intros _]; discriminate|].
+  assert (Hent : entry_ok fd ([], cost)).
+  { apply cache_get_in in Ec. unfold cache_ok in Hch. rewrite Forall_forall in Hch. apply Hch, Ec. }
+  apply trial_loop_g_terminates; [exact Hinv|exact Hch|exact Hent|].
+  pose proof (entry_sd_length fd [] cost Hinv Hent). lia.
+Qed.
+
+(* list oracles: one that is at least as long as the size dict never runs out *)
+Corollary trial_never_stuck fd oracle ch : Inv (f_cost0 fd) -> cache_ok fd ch ->
+  (length (c_sd (f_cost0 fd)) <= length oracle)%nat -> trial fd oracle ch <> Stuck.
+Proof.
+  intros Hinv Hch Hlen. rewrite trial_is_g. apply trial_g_terminates; assumption.
+Qed.
+
+Lemma finder_of_tree_inv n sl0 t ao ts tov tsl :
+  tree_ok n sl0 t -> sd_pos (szd n) -> NoDup (zd_keys (szd n)) ->
+  Inv (f_cost0 (finder_of_tree n sl0 t ao ts tov tsl)) /\
+  c_sd (f_cost0 (finder_of_tree n sl0 t ao ts tov tsl)) = szd n.
+Proof.
+  intros Hok Hpos HND. cbn [f_cost0 finder_of_tree].
+  destruct (cc_init_inv (tree_rows n sl0 t) (szd n) (tree_rows_ok n sl0 t Hok) Hpos HND) as (I0 & _ & S0 & _).
+  split; assumption.
+Qed.
+
+Theorem trial_terminates_tree n sl0 t ao ts tov tsl choose ch :
+  tree_ok n sl0 t -> sd_pos (szd n) -> NoDup (zd_keys (szd n)) ->
+  let fd := finder_of_tree n sl0 t ao ts tov tsl in
+  cache_ok fd ch ->
+  trial_g fd choose (length (szd n)) ch <> Stuck /\
+  (picks_candidates choose -> trial_g fd choose (length (szd n)) ch <> Raise E_ORACLE).
+Proof.
+  intros Hok Hpos HND fd Hch.
+  destruct (finder_of_tree_inv n sl0 t ao ts tov tsl Hok Hpos HND) as (I0 & S0).
+  apply trial_g_terminates; [exact I0|exact Hch|]. unfold fd. rewrite S0. lia.
+Qed.
+
+Definition first_key_choice : nat -> list ix -> costs -> ix :=
+  fun _ _ c => match c_sd c with (k, _) :: _ => k | [] => 0%nat end.
+Lemma first_key_picks_candidates : picks_candidates first_key_choice.
+Proof.
+  intros i k c Hne. unfold first_key_choice. destruct (c_sd c) as [|[j v] sd]; [contradiction|].
+  unfold zd_mem. cbn. rewrite Nat.eqb_refl. reflexivity.
+Qed.
